@@ -40,10 +40,11 @@ LEVEL_TEXT = ("Lean theorems for ALL finalizer lists / fn sequences / decision i
               "operator every run.")
 THEOREMS = [("Kopf.Props.C06", "Kopf.C06." + n) for n in [
     "foreign_untouched", "order_preserved", "block_spec", "allow_spec", "block_idempotent", "allow_idempotent",
-    "allow_after_block", "patch_is_fn_of_tested", "foreign_untouched_lts", "decision_spec", "decision_fns",
-    "never_early_partial", "never_early_inv_partial", "conflict_carries_nothing", "cycle_decides_anew", "guard_of_not_merge",
-    "conflict_on_release_redecided", "conflict_on_add_redecided", "stale_release_via_merge_witness",
-    "never_early_fails", "released_eventually", "add_on_match", "remove_on_mismatch", "add_remove_on_match"]]
+    "allow_after_block", "patch_is_fn_of_tested", "foreign_untouched_lts", "decision_spec",
+    "never_early_partial", "never_early_inv_partial", "conflict_carries_nothing", "cycle_decides_anew",
+    "stale_release_via_merge_witness", "never_early_fails",
+    "released_in_one_quiet_cycle", "wakeup_layer_refines", "no_lost_wakeup", "released_under_fairness", "lost_wakeup_witness",
+    "add_on_match", "remove_on_mismatch", "add_remove_on_match"]]
 TIE_THEOREMS = [("Kopf.Tie.C06", "Kopf.C06.Tie." + n) for n in [
     "mustBlock_eq", "add_eq", "remove_eq", "early_eq", "release_eq", "effects_eq", "decision_eq", "carry_eq"]]
 RULE = ("D: finalizer lists over an alphabet with the own name 0-3 times, look-alikes, unicode, empty/absent containers, and fn "
@@ -514,17 +515,30 @@ class View:
         return list(dict.fromkeys(_meta(v["body"]).get("uid") for v in self.hist))
 
     # -- the handler/daemon log ---------------------------------------------------------------------
-    def finished(self, h: dict, uid: str, T: float) -> bool:
-        retries = (h.get("opts") or {}).get("retries")
-        for c in self.tr["calls"]:
-            if c["id"] != h["id"] or c.get("uid") != uid or c.get("t_end") is None or c["t_end"] > T:
+    def finished(self, h: dict, uid: str, T: float, upto: int | None = None) -> bool:
+        """Has the deletion handler finished, as of instant T? Read off the latest handling pass before T (what kopf
+        stored in / purged from the progress records and what the handler returned in that pass): a handler whose
+        finished record was purged and which is invoked again without finishing is UNFINISHED again; so is one whose
+        record was purged while it did not match. A pass in which it finishes counts at once."""
+        hid = h["id"]
+        latest = None
+        for c in self.tr["cycles"]:
+            p = c.get("pcc")
+            ap = c.get("apply")
+            if c.get("uid") != uid or not p or not ap or ap["t"] > T or not isinstance(p.get("P_after"), dict) or "error" in p["P_after"]:
                 continue
-            o = c.get("outcome")
-            if o in ("ok", "perm"):
-                return True
-            if o in ("temp", "arb") and retries is not None and (c.get("retry") or 0) + 1 >= retries:
-                return True
-        return False
+            if upto is not None and c["i"] > upto:
+                continue   # a pass of a later cycle (it may start at the same virtual instant as the write judged)
+            latest = p
+        if latest is None:
+            return False
+        done = lambda r: bool(r and (r.get("success") or r.get("failure")))   # noqa: E731
+        out = (latest.get("outcomes") or {}).get(hid)
+        if out is not None:
+            return bool(out["final"])
+        if hid in latest.get("selected", []):
+            return done(latest["P"].get(hid))
+        return done(latest["P_after"].get(hid))
 
     def live_calls(self, h: dict, uid: str, T: float) -> list[dict]:
         out = []
@@ -538,14 +552,14 @@ class View:
             out.append(c)
         return out
 
-    def required_at(self, uid: str, labels: dict, T: float) -> list[str]:
+    def required_at(self, uid: str, labels: dict, T: float, upto: int | None = None) -> list[str]:
         """Who requires the finalizer at instant T on an object with these labels (from the statement)."""
         why = []
         for h in self.handlers:
             if not _match(h, labels):
                 continue
             if h["kind"] == "delete" and not (h.get("opts") or {}).get("optional"):
-                if not self.finished(h, uid, T):
+                if not self.finished(h, uid, T, upto):
                     why.append(f"mandatory deletion handler {h['id']} has not finished")
             elif h["kind"] in SPAWNING_KINDS:
                 for c in self.live_calls(h, uid, T):
@@ -578,6 +592,24 @@ def _main_requests(view: View, cyc: dict) -> tuple[dict | None, dict | None]:
     jt = ap["t"] + (LAT if merge is not None else 0.0)
     js = next((r for r in rs if "json-patch" in (r.get("ctype") or "") and r["wall"] == jt), None)
     return merge, js
+
+
+def _slept(view: View, cyc: dict, ab: dict) -> bool | None:
+    """Did `application.apply` sleep (and/or touch) after its patching? None = not observable (cut short, or the
+    sleep was interrupted at once by an event that was already queued)."""
+    ap = cyc["apply"]
+    if "t_end" not in ap or cyc.get("error"):
+        return None
+    n_main = (1 if ab["merge"] is not None else 0) + (1 if ab["json"] is not None else 0)
+    rs = [r for r in _cycle_requests(view, cyc) if r["wall"] >= ap["t"] + n_main * LAT and "merge-patch" in (r.get("ctype") or "")]
+    touched = any(_touch_only(r) for r in rs)
+    extra = (ap["t_end"] - ap["t"]) - n_main * LAT
+    if touched or extra > 1e-9:
+        return True
+    nxt = next((c for c in view.tr["cycles"] if c["i"] > cyc["i"] and c.get("uid") == cyc.get("uid") and c["inc"] == cyc["inc"]), None)
+    if nxt is not None and nxt["t0"] <= cyc.get("t1", float("inf")) + 1e-9:
+        return None
+    return False
 
 
 def abstract_cycle(view: View, cyc: dict) -> dict | None:
@@ -649,10 +681,10 @@ def oracle(ctx: Ctx, sc: dict, tr: dict) -> dict:
                 stats["removals"] += 1
                 T = cur["t"]
                 labels = _labels(cur["body"])
-                why = view.required_at(uid, labels, T)
+                cyc = cycles_by_req.get(id(w))
+                why = view.required_at(uid, labels, T, cyc["i"] if cyc else None)
                 if why:
                     stats["early"] += 1
-                    cyc = cycles_by_req.get(id(w))
                     sig, note = classify_early(view, cyc, w, uid, T)
                     ctx.oracle_fail(f"own finalizer removed at t={T} (object {'deleted' if gone else 'unprotected'}) although " + "; ".join(why) + note,
                                     {"scenario": sc, "t": T, "rv": _meta(cur['body']).get("resourceVersion"), "labels": labels,
@@ -677,7 +709,7 @@ def classify_early(view: View, cyc: dict | None, req: dict, uid: str, T: float) 
     tested = next((o.get("value") for o in (req.get("payload") or []) if isinstance(o, dict) and o.get("op") == "test"), None)
     if "allow_deletion" in old and "allow_deletion" not in new:
         return SIG_F5, " [the removal was carried in memory.remaining_patch from an earlier cycle that got HTTP 422; this cycle decided no removal]"
-    if "allow_deletion" in new and not view.required_at(uid, seen_labels, T) and tested is not None and tested != cyc.get("rv"):
+    if "allow_deletion" in new and not view.required_at(uid, seen_labels, T, cyc["i"]) and tested is not None and tested != cyc.get("rv"):
         return SIG_F5B, (f" [the cycle decided on version {cyc.get('rv')} where nothing required it; its own merge patch re-based the "
                          f"test to version {tested}, hiding the foreign write in between]")
     return SIG_EARLY, ""
@@ -858,8 +890,15 @@ def run_scenarios(ctx: Ctx, scenarios: list[dict], names: list[str | None]) -> N
             ctx.count("S.json_patch", outcome)
             ctx.count("S.merge_first", ab["merge"] is not None and js is not None)
             reqs.append(["C06.decide", i])
-            impls.append({"fns": ab["new"], "handlersRun": ab["ran"]})
+            impls.append({"fns": ab["new"], "handlersRun": ab["ran"], "delays": bool(cyc["apply"].get("delays"))})
             where.append({"scenario": sc, "cycle": cyc["i"], "what": "decision"})
+            # application.apply: with delays, the cycle ends in sleep-then-touch iff its patch was empty
+            slept = _slept(view, cyc, ab)
+            if cyc["apply"].get("delays") and slept is not None:
+                reqs.append(["C06.sleeps", True, bool(cyc["apply"]["patch"]) or ab["merge"] is not None, ab["fns"]])
+                impls.append(slept)
+                where.append({"scenario": sc, "cycle": cyc["i"], "what": "sleep"})
+                ctx.count("S.sleep_after_delays", slept)
             if ab["fresh"] is not None and (js is None or js.get("response") in (200, 422)):
                 accepted = js is None or js.get("response") == 200
                 reqs.append(["C06.patch", OWN, ab["fns"], ab["fresh"], ab["marked"], accepted])
@@ -881,6 +920,8 @@ def run_scenarios(ctx: Ctx, scenarios: list[dict], names: list[str | None]) -> N
         m = out[1]
         if req[0] == "C06.decide":
             ctx.compare("C06 decision block", impl, m, wh)
+        elif req[0] == "C06.sleeps":
+            ctx.compare("C06 sleep-then-touch after delays", impl, m, wh)
         else:
             view_fins = req[3]
             sent = m["sent"]
